@@ -10,6 +10,7 @@ depths = [int(x) for x in sys.argv[3].split(",")] if len(sys.argv) > 3 else [1, 
 vlib.build_impl()
 chk = vlib.Check("DEV", "quick", seed)
 g = evalgen.Gen(chk.rng)
+g.wild = 0.2
 cases = []
 for _ in range(n):
     d = evalgen.gen_doc(chk.rng)
